@@ -47,6 +47,10 @@ func checkTriple(scen string, in TripleIn) *mc.Violation {
 	if ab <= 0 && bc <= 0 && ac > 0 {
 		return mc.V(scen, "transitive", in, "a<=b and b<=c imply a<=c", fmt.Sprintf("ab=%d bc=%d ac=%d", ab, bc, ac))
 	}
+	// the sort adapter must order a pair exactly as Compare does
+	if l := (version.Slice{a, b}).Less(0, 1); l != (ab < 0) {
+		return mc.V(scen, "less-is-compare", in, fmt.Sprintf("Less(a,b) == (Compare(a,b) < 0) = %v", ab < 0), fmt.Sprint(l))
+	}
 	if ab == 0 && ac != bc {
 		return mc.V(scen, "equal-behave-identically", in, "Compare(a,b)=0 implies sign Compare(a,c) = sign Compare(b,c)", fmt.Sprintf("ac=%d bc=%d", ac, bc))
 	}
@@ -115,11 +119,17 @@ func values(r *mc.Run) []V3 {
 			}
 		}
 	}
+	// longer digit runs (numbers sharing a prefix, trailing and embedded zeros) with and without a revision
+	for _, u := range []string{"10", "100", "1000", "20", "200", "101", "110", "190", "1905", "19001", "1.10", "1.100", "1.20", "2.010", "2.01", "2.1"} {
+		for _, e := range []uint{0, 1} {
+			all = append(all, V3{e, u, ""}, V3{e, u, "10"}, V3{e, u, "100"})
+		}
+	}
 	return all
 }
 
 func Run(r *mc.Run) {
-	r.Rule = "all ordered triples over the value set (law scenario) and all sequences up to the length bound over a 12-element set (sort scenario); a triple is non-trivial when its three values are pairwise different structs; a sequence when it has >= 2 different elements; distinct by construction"
+	r.Rule = "all ordered triples over the value set (law scenario) and all sequences up to the length bound over a 15-element set (sort scenario); a triple is non-trivial when its three values are pairwise different structs; a sequence when it has >= 2 different elements; distinct by construction"
 	r.Assume = []string{"no reference comparator: the laws are checked on the implementation's own answers", "values outside the enumerated set (longer strings, other bytes) are not explored"}
 	vals := values(r)
 	n := len(vals)
@@ -155,7 +165,9 @@ func Run(r *mc.Run) {
 
 	// sorting: all sequences of length <= L over a 12-element set with equal-but-different spellings
 	set := []V3{{0, "1.0", ""}, {0, "1.00", ""}, {0, "1.0", "0"}, {0, "1.0~rc1", ""}, {0, "1.0+b1", ""}, {0, "1.0a", ""},
-		{0, "1.0", "1"}, {0, "1.0.", ""}, {1, "0.1", ""}, {0, "1.0~~", ""}, {0, "9", ""}, {0, "10", ""}}
+		{0, "1.0", "1"}, {0, "1.0.", ""}, {1, "0.1", ""}, {0, "1.0~~", ""}, {0, "9", ""}, {0, "10", ""},
+		// the same upstream text under different epochs, with revisions that order the other way round
+		{1, "1.0", ""}, {1, "1.0", "0~"}, {2, "1.0", "1"}}
 	L := r.Pick(4, 5)
 	m := len(set)
 	r.Scenario("sort-all-sequences", map[string]interface{}{"set": set, "max_len": L}, m*m, func(sh int, st *mc.Stats) bool {
